@@ -13,9 +13,10 @@ OK, VIOL, UNDEC, KNOWN = "ok", "violation", "undecided", "known-finding"
 
 
 class Ob:
-    __slots__ = ("rule", "where", "what", "verdict", "reason", "line", "nontrivial")
+    __slots__ = ("rule", "where", "what", "verdict", "reason", "line", "nontrivial", "canon")
 
-    def __init__(self, rule, where, what, verdict, reason="", line=None, nontrivial=True):
+    def __init__(self, rule, where, what, verdict, reason="", line=None, nontrivial=True, canon=None):
+        self.canon = canon  # the construct with the names of locals abstracted ($1, $2 ...): stable under renaming
         self.rule = rule
         self.where = where  # "module:qualname"
         self.what = what  # normalised construct / instance
@@ -71,8 +72,8 @@ class Report:
     def ok(self, rule, where, what, reason="", line=None, nontrivial=True):
         return self._add(Ob(rule, where, what, OK, reason, line, nontrivial))
 
-    def violation(self, rule, where, what, reason="", line=None):
-        return self._add(Ob(rule, where, what, VIOL, reason, line))
+    def violation(self, rule, where, what, reason="", line=None, canon=None):
+        return self._add(Ob(rule, where, what, VIOL, reason, line, canon=canon))
 
     def undecided(self, rule, where, what, reason="", line=None):
         return self._add(Ob(rule, where, what, UNDEC, reason, line))
@@ -99,28 +100,36 @@ class Report:
     # -- finishing -----------------------------------------------------------
     def finish(self, write=True):
         known = load_known()
-        open_keys = {}
-        for e in known.get("open", []):
-            if e.get("property") == self.prop_id:
-                open_keys[(e["rule"], e["where"], e["what"])] = e
+        # A listed finding absorbs at most one reported construct: the one with the same text, or - so that renaming a
+        # local variable does not turn a listed finding into a new one - the one with the same canonical form (locals
+        # abstracted).  Anything beyond the listed multiplicity is reported.
+        entries = [e for e in known.get("open", []) if e.get("property") == self.prop_id]
+        free = list(entries)
         lines = []
         n_viol = 0
         known_hit = []
         replay = None
-        for ob in self.obs:
-            if ob.verdict == VIOL and ob.key() in open_keys:
-                ob.verdict = KNOWN
-                known_hit.append(ob)
+        cand = [ob for ob in self.obs if ob.verdict == VIOL]
+        for exact in (True, False):
+            for ob in cand:
+                if ob.verdict != VIOL:
+                    continue
+                for e in free:
+                    if (e["rule"], e["where"]) != (ob.rule, ob.where):
+                        continue
+                    if (exact and e["what"] == ob.what) or (not exact and ob.canon is not None and e.get("canon") == ob.canon):
+                        ob.verdict = KNOWN
+                        known_hit.append((ob, e))
+                        free.remove(e)
+                        break
         viols = [o for o in self.obs if o.verdict == VIOL]
         undec = [o for o in self.obs if o.verdict == UNDEC]
-        for ob in known_hit:
-            e = open_keys[ob.key()]
+        for ob, e in known_hit:
             lines.append(f"KNOWN-FINDING: property={self.prop_id} {ob.rule} {ob.where} `{ob.what}`: {e.get('what_fails', ob.reason)}")
+        known_hit = [ob for ob, e in known_hit]
         # a listed finding that is no longer reported is worth a note (not an error: it may have been repaired)
-        hit_keys = {o.key() for o in known_hit}
-        for k, e in open_keys.items():
-            if k not in hit_keys:
-                self.note(f"known finding no longer reported (repaired or construct rewritten): {k}")
+        for e in free:
+            self.note(f"known finding no longer reported (repaired or construct rewritten): {(e['rule'], e['where'], e['what'])}")
         if viols:
             n_viol = len(viols)
             if write:
